@@ -208,6 +208,7 @@ Op(op, off, n, val) == [op |-> op, off |-> off, n |-> n, val |-> val]
 NoMal == [cls |-> "none", fi |-> 0]
 
 StrictClasses == {"trailing1", "trailing8", "truncate1", "tag_oob", "tag_max", "idx_oob", "idx_max",
+                  "idx_hi32", "idx_hi56",
                   "words_gt_max", "nbits_gt_alloc", "len_overflow"}
 
 FieldIdx(fs, ty) == {i \in 1..Len(fs) : fs[i].ty = ty}
@@ -217,7 +218,7 @@ Muts(m) ==
   LET fs == Layout(m) IN
   {[cls |-> c, fi |-> 0] : c \in {"trailing1", "trailing8", "truncate1"}}
   \cup {[cls |-> c, fi |-> i] : c \in {"tag_oob", "tag_max"}, i \in FieldIdx(fs, "tag")}
-  \cup {[cls |-> c, fi |-> i] : c \in {"idx_oob", "idx_max"}, i \in {j \in FieldIdx(fs, "idx") : fs[j].b > 0}}
+  \cup {[cls |-> c, fi |-> i] : c \in {"idx_oob", "idx_max", "idx_hi32", "idx_hi56"}, i \in {j \in FieldIdx(fs, "idx") : fs[j].b > 0}}
   \cup {[cls |-> "vidx_big", fi |-> i] : i \in {j \in FieldIdx(fs, "idx") : fs[j].b = 0}}
   \cup {[cls |-> c, fi |-> i] : c \in {"words_gt_max", "nbits_gt_alloc", "nbits_zero"}, i \in FieldIdx(fs, "nbits")}
   \cup {[cls |-> "garbage_live", fi |-> i] : i \in {j \in FieldIdx(fs, "nbits") : (fs[j].v % WordBits) # 0}}
@@ -249,6 +250,9 @@ Mutate(fs, mal) ==
     [] mal.cls = "tag_max" -> R(SetF(fs, i, "v", 255), 0, <<Op("set", off, fs[i].w, 255)>>)
     [] mal.cls = "idx_oob" -> R(SetF(fs, i, "v", fs[i].b), 0, <<Op("set", off, 8, fs[i].b)>>)
     [] mal.cls = "idx_max" -> R(SetF(fs, i, "v", Big), 0, <<Op("fill", off, 8, 255)>>)
+    \* a valid low word with a bit set above it (a range check done after truncation to 32 bits misses these)
+    [] mal.cls = "idx_hi32" -> R(SetF(fs, i, "v", Big), 0, <<Op("set", off + 4, 1, 1)>>)
+    [] mal.cls = "idx_hi56" -> R(SetF(fs, i, "v", Big), 0, <<Op("set", off + 7, 1, 64)>>)
     [] mal.cls = "vidx_big" -> R(SetF(fs, i, "v", Big), 0, <<Op("set", off, 8, Big)>>)
     [] mal.cls = "words_gt_max" ->
          LET w == fs[i + 1].v IN
